@@ -20,7 +20,11 @@ struct Run {
   bool any_offset = false;
   std::vector<std::pair<const uint8_t*, std::vector<uint8_t>>> ins;
   std::vector<std::vector<uint8_t>> outs;
-  Run(uint64_t mode_seed, uint64_t data_seed, int pf) : modes(mode_seed), data(data_seed), prefill(pf) {}
+  Run(uint64_t mode_seed, uint64_t data_seed, int pf) : modes(mode_seed), data(data_seed), prefill(pf) {
+    // one run in four carves all its buffers back to back out of one region (the layout of a caller-side arena)
+    uint64_t pk = modes.below(8);
+    if (pk >= 6) ar.set_packed(pk == 6 ? +1 : -1);
+  }
   Buf get(size_t len, int pf) {
     int mode = (int)modes.below(3);
     size_t mis = 8 * modes.below(8);
